@@ -120,4 +120,57 @@ def elemsPinnedRange (h : HeightField2 K) (lo hi : V2 K) : Nat × Nat :=
   (HeightField3.quantizeFloor (lo.x / h.sc.x) h.ucw h.numCells, quantizeCeil (hi.x / h.sc.x) h.ucw h.numCells)
 
 end Hf2S
+
+/-! ## `map_elements_in_local_aabb` (3-D), corrected for mirrored fields (same re-ordering of the corners) -/
+namespace Hf3S
+
+/-- `HeightField::map_elements_in_local_aabb` (3-D): the `(triangle id, triangle)` pairs handed to the callback, in order
+(columns `j` outside, rows `i` inside; left triangle before right triangle).  Note `x1 = x0 + cell_width`, `z1 = z0 + cell_height`
+(not the `x_at(j + 1)` of `triangles_at`). -/
+def elemsInAabb (h : HeightField3 K) (lo hi : V3 K) : List (Nat × Triangle3 K) :=
+  let ra : V3 K := ⟨lo.x / h.sc.x, lo.y / h.sc.y, lo.z / h.sc.z⟩
+  let rb : V3 K := ⟨hi.x / h.sc.x, hi.y / h.sc.y, hi.z / h.sc.z⟩
+  let rmin := ra.inf rb
+  let rmax := ra.sup rb
+  let half : K := lit 1 2
+  if rmax.x ≤ -half ∨ rmax.z ≤ -half ∨ half ≤ rmin.x ∨ half ≤ rmin.z then [] else
+  let ncx := h.nc - 1
+  let ncz := h.nr - 1
+  let minX := HeightField3.quantizeFloor rmin.x h.ucw ncx
+  let minZ := HeightField3.quantizeFloor rmin.z h.uch ncz
+  let maxX := Hf2S.quantizeCeil rmax.x h.ucw ncx
+  let maxZ := Hf2S.quantizeCeil rmax.z h.uch ncz
+  let js := (List.range maxX).filter fun j => decide (minX ≤ j)
+  let is := (List.range maxZ).filter fun i => decide (minZ ≤ i)
+  js.flatMap fun j => is.flatMap fun i =>
+    let bits := h.status i j
+    let zig : Bool := bits % 2 = 1
+    let leftRemoved : Bool := (bits / 2) % 2 = 1
+    let rightRemoved : Bool := (bits / 4) % 2 = 1
+    if leftRemoved && rightRemoved then [] else
+    let z0 := -half + h.uch * lit (i : Int)
+    let z1 := z0 + h.uch
+    let x0 := -half + h.ucw * lit (j : Int)
+    let x1 := x0 + h.ucw
+    let y00 := h.height i j
+    let y10 := h.height (i + 1) j
+    let y01 := h.height i (j + 1)
+    let y11 := h.height (i + 1) (j + 1)
+    if (rmax.y < y00 ∧ rmax.y < y10 ∧ rmax.y < y01 ∧ rmax.y < y11) ∨ (y00 < rmin.y ∧ y10 < rmin.y ∧ y01 < rmin.y ∧ y11 < rmin.y) then [] else
+    let p00 : V3 K := ⟨x0 * h.sc.x, y00 * h.sc.y, z0 * h.sc.z⟩
+    let p10 : V3 K := ⟨x0 * h.sc.x, y10 * h.sc.y, z1 * h.sc.z⟩
+    let p01 : V3 K := ⟨x1 * h.sc.x, y01 * h.sc.y, z0 * h.sc.z⟩
+    let p11 : V3 K := ⟨x1 * h.sc.x, y11 * h.sc.y, z1 * h.sc.z⟩
+    let numTri := (h.nr - 1) * (h.nc - 1) * 2
+    let tid := j * (h.nr - 1) + i
+    (if leftRemoved then [] else [(tid, (if zig then ⟨p00, p10, p11⟩ else ⟨p00, p10, p01⟩ : Triangle3 K))]) ++
+    (if rightRemoved then [] else [(tid + numTri / 2, (if zig then ⟨p00, p11, p01⟩ else ⟨p10, p11, p01⟩ : Triangle3 K))])
+
+/-- `HeightField::triangles()`: cells column by column, left triangle before right triangle -/
+def triangles (h : HeightField3 K) : List (Triangle3 K) :=
+  (List.range (h.nc - 1)).flatMap fun j => (List.range (h.nr - 1)).flatMap fun i =>
+    let t := h.trianglesAt i j
+    t.1.toList ++ t.2.toList
+
+end Hf3S
 end Model
